@@ -67,6 +67,9 @@ const CONTEXTS: &[Context] = &[
     Context { name: "elisp-string-after-hex", pre: b"\"\\x41\\ ", post: b"z\"", in_token: true, verbatim: None, elisp: true },
     Context { name: "elisp-string-uni-escape", pre: b"\"\\u00e9", post: b"\\N{U+3bb}\"", in_token: true, verbatim: Some("string"), elisp: true },
     Context { name: "elisp-char", pre: b"?", post: b"", in_token: true, verbatim: None, elisp: true },
+    Context { name: "elisp-string-after-ctrl", pre: b"\"a\\^", post: b"\"", in_token: true, verbatim: None, elisp: true },
+    Context { name: "elisp-string-after-meta", pre: b"\"\\M-", post: b"b\"", in_token: true, verbatim: None, elisp: true },
+    Context { name: "elisp-char-after-ctrl", pre: b"?\\C-", post: b"", in_token: true, verbatim: None, elisp: true },
     // an error that consumes only the first byte of the payload: an iterating
     // caller continues in the middle of a character
     Context { name: "after-hash", pre: b"(a) #", post: b"a b", in_token: true, verbatim: None, elisp: false },
